@@ -162,6 +162,19 @@ def atom_of_position(rd, p):
     return rd.GetNumAtoms()      # the position of no atom
 
 
+def canon_atoms(rd):
+    """atom i -> first atom with exactly the same coordinates.  RDKit embeds disconnected fragments independently,
+    so identical fragments (and single atoms) can coincide: atoms are identified only up to equal coordinates."""
+    if rd.GetNumConformers() == 0:
+        return list(range(rd.GetNumAtoms()))
+    conf = rd.GetConformer()
+    seen, out = {}, []
+    for i in range(rd.GetNumAtoms()):
+        q = conf.GetAtomPosition(i)
+        out.append(seen.setdefault((q.x, q.y, q.z), i))
+    return out
+
+
 def fhex(x):
     x = float(x)
     if x != x:
@@ -322,6 +335,7 @@ class C18(common.Prop):
         # returned by AddHs: then the atom identification is unavailable and only the executed clauses
         # (every node has a position, bonding distances) are judged
         out['obs_known'] = rd.GetNumConformers() > 0
+        out['canon'] = canon_atoms(rd)
         obs, pos = [], []
         if exc == 0:
             for n in G.nodes:
@@ -340,7 +354,7 @@ class C18(common.Prop):
         from rdkit.Chem import AllChem
         import cgsmiles.rdkit as cr
         out = {'conf': bool(case['conf']), 'nodes': list(G.nodes), 'orig_atoms': atom_table(G), 'orig_edges': edge_table(G),
-               'out_atoms': [], 'out_edges': [], 'out_pos': [], 'exc': 0}
+               'out_atoms': [], 'out_edges': [], 'out_pos': [], 'exc': 0, 'canon': list(range(len(G)))}
         try:
             rd = cr.networkx_to_rdkit(G)
         except Exception as e:
@@ -354,6 +368,7 @@ class C18(common.Prop):
                 ok = -1
             if ok != 0 or rd.GetNumConformers() == 0:
                 return {'skip': 'rdkit:no-conformer'}
+        out['canon'] = canon_atoms(rd)
         try:
             H = cr.rdkit_to_networkx(rd)
         except NameError as e:
@@ -429,7 +444,8 @@ class C18(common.Prop):
                 return 2
             own = {n: i for i, n in enumerate(impl['nodes'])}
             obs = dict((a, i) for a, i in impl['obs'])
-            if impl.get('obs_known', True) and any(obs.get(n) != own[n] for n in impl['nodes']):
+            cn = impl['canon']
+            if impl.get('obs_known', True) and any(obs.get(n) != cn[own[n]] for n in impl['nodes']):
                 return 3
             for u, v, h in impl['bonds']:
                 d2 = sum((a - b) ** 2 for a, b in zip(pos[u], pos[v]))
@@ -450,7 +466,7 @@ class C18(common.Prop):
                 return 5
             if impl['conf']:
                 op = dict((a, i) for a, i in impl['out_pos'])
-                if any(op.get(n) != n for n in ra):
+                if any(op.get(n) != impl['canon'][n] for n in ra):
                     return 7
             return 0
         if impl['exc']:
@@ -505,17 +521,17 @@ class C18(common.Prop):
         k = case['kind']
         zl = lambda xs: lit.lst([lit.z(x) for x in xs])
         if k == 'embed':
-            return ('(CEmbed %s %s %s %s %s %s)' % (
-                zl(impl['nodes']), lit.nat(impl['nrd']), lit.nat(impl['exc']),
+            return ('(CEmbed %s %s %s %s %s %s %s)' % (
+                zl(impl['nodes']), lit.nat(impl['nrd']), lit.lst([lit.nat(i) for i in impl['canon']]), lit.nat(impl['exc']),
                 lit.lst([lit.pair(lit.z(a), lit.nat(i)) for a, i in impl['obs']]),
                 lit.lst(['(%s, %s, %s)' % (lit.z(u), lit.z(v), lit.b(h)) for u, v, h in impl['bonds']]),
                 lit.lst([lit.pair(lit.z(a), v3(p)) for a, p in impl['pos']])))
         if k == 'round':
             at = lambda t: lit.lst(['(%s, (%s, %s, %s))' % (lit.z(n), lit.s(e), lit.z(q), lit.z(h)) for n, e, q, h in t])
             ed = lambda t: lit.lst(['(%s, %s, %s)' % (lit.z(u), lit.z(v), lit.z(o)) for u, v, o in t])
-            return ('(CRound %s %s %s %s %s %s %s %s)' % (
+            return ('(CRound %s %s %s %s %s %s %s %s %s)' % (
                 lit.b(impl['conf']), zl(impl['nodes']), lit.nat(impl['exc']), at(impl['orig_atoms']), ed(impl['orig_edges']),
-                at(impl['out_atoms']), ed(impl['out_edges']),
+                at(impl['out_atoms']), ed(impl['out_edges']), lit.lst([lit.nat(i) for i in impl['canon']]),
                 lit.lst([lit.pair(lit.z(a), lit.nat(i)) for a, i in impl['out_pos']])))
         bl = lambda t: lit.lst([lit.pair(lit.z(b), v3(p)) for b, p in t])
         return ('(CFwd %s %s %s %s %s %s %s %s)' % (
